@@ -2,6 +2,7 @@
 //! C15). The machine-level half (`mhost`) drives `Artifact::run/run_config`
 //! under a simulated host; the chain-level half (`v1sim`) drives
 //! `v1::invoke_*` / `resume_receive` with a stub of the chain scheduler.
+mod golden;
 mod mhost;
 mod progen;
 mod v0sim;
@@ -66,6 +67,11 @@ fn main() {
     {
         // debugging aid: chainsim --debug-plan <replay or plan json>
         let a: Vec<String> = std::env::args().collect();
+        if a.iter().any(|x| x == "--make-golden") {
+            // one-off: write the golden artifacts of the current (reference) build to stdout
+            println!("{}", serde_json::to_string(&golden::make()).unwrap());
+            return;
+        }
         if let Some(i) = a.iter().position(|x| x == "--debug-plan") {
             let t = std::fs::read_to_string(&a[i + 1]).expect("read");
             let v: serde_json::Value = serde_json::from_str(&t).expect("json");
@@ -91,13 +97,22 @@ fn main() {
             };
             let n = ctx.count(150_000, 5_000_000);
             ctx.run_batch(&vs, n);
+            // artifacts stored by the pinned version
+            let path = ctx.root.join("golden").join("artifacts_v1.json");
+            match std::fs::read_to_string(&path).ok().and_then(|t| serde_json::from_str::<golden::Golden>(&t).ok()) {
+                Some(g) if !g.machine.is_empty() && !g.chain.is_empty() => {
+                    let n = ctx.count(2_000, 40_000);
+                    ctx.run_batch(&golden::GoldenScenario { golden: g }, n);
+                }
+                _ => ctx.harness_error(format!("cannot read {}", path.display())),
+            }
             EngineInfo {
                 rule: "generated structured Wasm programs (nested block/loop/if, br/br_if/br_table with and without carried values, direct and indirect calls, memory, globals, host calls at any depth) run under a simulated host; per program a reference run with every host call inline, then runs under seeded interrupt schedules (all / alternating / random bit vectors over the dynamic host-call ordinals), from the stored zero-copy and owned artifact, twice, and with another execution interleaved while suspended; non-trivial = at least one suspend/resume or writer fault fired, distinct by event-log fingerprint".into(),
                 explanation: "C13: event log (charges, host calls with arguments and memory length, call tracking), outcome (value / trap text / out of energy) and final memory+globals digest must be identical across all of these; re-serialising a loaded artifact is byte-identical; a failing writer makes storing fail".into(),
                 time_unit: "interpreter steps (dispatched instructions) + artifact bytes written",
                 state_measure: "not used by this engine (0)",
                 fault_kinds: &["suspend_resume", "reentry_while_suspended", "energy_exhausted", "artifact_writer_fault", "short_write", "write_eintr"],
-                probe_names: &["has_host_calls", "trap_outcome", "frame_limit", "ref_step_limit", "ran_zero_copy_artifact"],
+                probe_names: &["has_host_calls", "trap_outcome", "frame_limit", "ref_step_limit", "ran_zero_copy_artifact", "ran_old_artifact", "old_artifact_version_retired"],
                 real: vec!["concordium-wasm (parse, validate, metering transformation, compile, artifact output/input, interpreter) from /repo's working tree"],
                 stub: vec!["host functions = SimHost with fixed deterministic semantics (in /verif)", "num_enum derive (stub crate)"],
                 assumptions: vec![
